@@ -285,6 +285,23 @@ def _mk_op(sr, tag, x, spec):
     if kind == "svd":
         perm, kk = spec[1], spec[2]
         return (f"{tag}.fuse-matrix{perm}/{kk}.svd_truncated", lambda x=x, perm=perm, kk=kk: _svd_digestable(sr, x.fuse(tuple(perm[:kk]), tuple(perm[kk:]))), tag)
+    if kind == "fuse-shrink-fuse":
+        gs, ax, gone, how = spec[1], spec[2], spec[3], spec[4]
+
+        def f(x=x, gs=gs, ax=ax, gone=gone, how=how):
+            # the same fuse twice on ONE object, with an in-place removal of sectors in between
+            y = x.copy()
+            y.fuse(*gs)
+            cm = y.indices[ax].chargemap
+            keep = {c: np.ones(d) for c, d in cm.items() if c != gone}
+            if how == "multiply_diagonal" and keep:
+                y.multiply_diagonal(sr.BlockVector(keep), ax, inplace=True)
+            else:
+                for s_ in [s_ for s_ in list(y.blocks) if s_[ax] == gone][: max(0, len(y.blocks) - 1)]:
+                    del y.blocks[s_]
+            return y.fuse(*gs)
+
+        return (f"{tag}.fuse{gs}; drop charge {gone!r} of axis {ax} in place ({how}); fuse{gs} again", f, tag)
     perm = spec[1]
     return (f"{tag}.transpose{perm}", lambda x=x, perm=perm: x.transpose(perm), tag)
 
@@ -316,9 +333,17 @@ def make_ops(sr, seed, n):
     ops = []
     for k in range(n):
         tag, x = rng.choice(fused_in) if (fused_in and rng.random() < 0.35) else rng.choice(base)
-        kind = rng.choice(["fuse", "fuse", "reshape", "tensordot", "svd", "transpose", "fuse-unfuse"])
+        kind = rng.choice(["fuse", "fuse", "reshape", "tensordot", "svd", "transpose", "fuse-unfuse", "fuse-shrink-fuse"])
         if x.ndim < 2:
             kind = "transpose"
+        if kind == "fuse-shrink-fuse":
+            ax_ = rng.randrange(x.ndim)
+            cs_ = sorted(x.indices[ax_].chargemap)
+            if len(cs_) < 2 or any(ix.subinfo is not None for ix in x.indices):
+                kind = "fuse"
+            else:
+                ops.append(_mk_op(sr, tag, x, (kind, rng.choice(groupings(rng, x.ndim, 3)), ax_, rng.choice(cs_), rng.choice(["multiply_diagonal", "del-blocks"]))))
+                continue
         if kind in ("fuse", "fuse-unfuse"):
             spec = (kind, rng.choice(groupings(rng, x.ndim, 3)))
         elif kind == "reshape":
